@@ -2,6 +2,9 @@ from props import *  # noqa: F401,F403
 
 # ------------------------------------------------------------------------------------------------
 rc_bin("c08_rc", ["harness/c08_series_keys.cc"], lib=True)
+rc_bin("c08_sched", ["harness/c06_sched.cc"], lib=False, defines=['VH_PROP_ID=\\"C08\\"'],
+       shadow=["api/include/opentelemetry/common/spin_lock_mutex.h"], shadow_globs=METRICS_SHADOW_GLOBS,
+       shadow_srcs_globs=METRICS_SHADOW_SRCS_GLOBS, repo_srcs_globs=METRICS_PLAIN_GLOBS)
 PROPS["C08"] = dict(
     level_text="Metamorphic and reference-model property tests (rapidcheck, ASan/UBSan) at three levels: the attribute-set "
                "value (FilteredOrderedAttributeMap built through every constructor / AttributesProcessor::process from "
@@ -63,6 +66,8 @@ PROPS["C08"] = dict(
         SC_NOTE,
     ],
     runs=[
+        # measurements racing collections under generated schedules (the metrics SDK under the scheduler shim, see harness/c06_sched.cc)
+        run("meter-sched", "c08_sched", "meter_sched", "rc", dict(procs=3, cases=15000), dict(procs=6, cases=200000), asan_extra=SCHED_ASAN),
         run("value", "c08_rc", "attr_value", "rc", dict(procs=4, cases=18000), dict(procs=5, cases=200000)),
         run("series", "c08_rc", "instrument_series", "rc", dict(procs=4, cases=12000), dict(procs=4, cases=120000)),
         run("limits", "c08_rc", "storage_limits", "rc", dict(procs=4, cases=12000), dict(procs=4, cases=150000)),
